@@ -1,7 +1,7 @@
 # C05 — output is in global timestamp order when enqueues respect the grace period (dispatch kernel only)
 import importlib.util, os
 _spec = importlib.util.spec_from_file_location('c03', os.path.join(os.path.dirname(__file__), 'C03.py')); _m = importlib.util.module_from_spec(_spec); _m.Q = Q; _spec.loader.exec_module(_m)
-QUERIES = [q for q in _m.QUERIES if q.name.startswith('K3_min_dispatch') or q.name.startswith('K1_read_decode')]
+QUERIES = [q for q in _m.QUERIES if q.name.startswith('K3_min_dispatch') or q.name.startswith('K1')]
 # K5: the real _poll()/_exit() loops over the kernel contracts (harness/C07_exit.cpp, queries defined in C07.py)
 import importlib.util as _iu, os as _os
 _s7 = _iu.spec_from_file_location('c07', _os.path.join(_os.path.dirname(__file__), 'C07.py')); _m7 = _iu.module_from_spec(_s7); _m7.Q = Q; _s7.loader.exec_module(_m7)
@@ -10,7 +10,7 @@ BOUNDS = 'K3: 2 contexts x <= 2 buffered events; K1: one context, <= 3 records, 
 OUTSIDE = 'the once-per-pass computation of ts_now from the clock and the grace period, has_pending_events_for_caching..., the poll/exit batch loops and the end-to-end ordering argument are NOT solved; backtrace replays are the documented exception'
 ASSUMPTIONS = ['an event stamped exactly 2^64-1 is excluded (it is never selected by the minimum search: observation recorded in DESIGN.md)']
 MANIFEST = {
- 'text': 'Reduced scope (the two mechanisms the property rests on, each as a kernel): K1 - the real read loop never takes a System/Tsc-clock record stamped later than the pass\'s cut-off ts_now, nor anything behind it in the same queue (they stay queued, unconsumed), while User-clock records are never held back; K3 - among everything buffered, the real backend always writes the statement with the minimum timestamp over ALL threads next, so the written sequence is non-decreasing whenever a later-stamped statement is never buffered before an earlier one is (which is what the hold-back is for). K5 - the real _poll()/_exit() loops over these two contracts, with a symbolic non-decreasing cut-off per pass and producers that keep enqueueing records stamped after the last cut-off, never write out of global timestamp order. The computation of ts_now from the clock once per pass and a run with all real kernels in place at once are NOT solved.',
+ 'text': 'Reduced scope (the two mechanisms the property rests on, each as a kernel): K1 - the real read loop never takes a System/Tsc-clock record stamped later than the pass\'s cut-off ts_now, nor anything behind it in the same queue (they stay queued, unconsumed), while User-clock records are never held back; K3 - among everything buffered, the real backend always writes the statement with the minimum timestamp over ALL threads next, so the written sequence is non-decreasing whenever a later-stamped statement is never buffered before an earlier one is (which is what the hold-back is for). K5 - the real _poll()/_exit() loops over these two contracts, with a symbolic non-decreasing cut-off per pass and producers that keep enqueueing records stamped after the last cut-off, never write out of global timestamp order. K1b - the real _populate_transit_events_from_frontend_queues computes that cut-off once per pass (clock at the start minus the grace period) and hands the same value to every queue. A run with all real kernels in place at once are NOT solved.',
  'note': 'Same queries as C03 K1/K3. 2 contexts x <= 2 events. Trusted: clang IR, translator, CBMC.',
  'technique': 'CBMC/SAT over clang IR of the real minimum-timestamp dispatch with symbolic timestamps; native replay',
 }
